@@ -376,15 +376,10 @@ func (txn *Txn) insert(fn func(Row) error, expireAt int64) (uint32, error) {
 	txn.inserts = append(txn.inserts, idx)
 	txn.bufferFor(rowColumn).PutOperation(commit.Insert, idx)
 
-	// If there was an error during insertion, free the index so it can be re-used
+	// If there was an error during insertion, queue the removal of the row: whatever the callback has
+	// written is dropped with it when the transaction commits, and the offset goes back when it ends
 	if err := txn.QueryAt(idx, fn); err != nil {
-		for i := len(txn.inserts) - 1; i >= 0; i-- { // freed right away: no longer reserved by this transaction
-			if txn.inserts[i] == idx {
-				txn.inserts = append(txn.inserts[:i], txn.inserts[i+1:]...)
-				break
-			}
-		}
-		txn.owner.free(idx)
+		txn.deleteAt(idx)
 		return idx, err
 	}
 
